@@ -526,7 +526,7 @@ lemma("divmod_unique", {"q": "int", "d": "int", "r": "int"}, ["d >= 1", "0 <= r"
 
 # ====================================================================== C07: separation clause (result == 0 implies ...)
 # trin(b) = b (b - 1) / 2 as a linear recurrence: the slot of the pair (a, b), a < b, in the triangular table is trin(b) + a
-spec("trin(b)", "0 if b <= 0 else trin(b - 1) + (b - 1)", ptypes=["int"], qdef=True)
+spec("trin(b)", "0 if b <= 0 else trin(b - 1) + (b - 1)", ptypes=["int"])
 lemma("trin_closed", {"b": "int"}, ["b >= 0"], "2 * trin(b) == b * (b - 1)", induct="b", base="0")
 lemma("trin_mono", {"b": "int", "c": "int"}, ["0 <= b", "b <= c"], "trin(b) <= trin(c) and trin(c) >= 0", induct="c", base="b",
       uses=["trin_nonneg(b)"])
@@ -544,11 +544,14 @@ lemma("pm_range", {"y": "arr2", "a": "int", "b": "int", "d": "int"}, [], "-1 <= 
       induct="d", base="0")
 lemma("pm_ge", {"y": "arr2", "a": "int", "b": "int", "d": "int", "D": "int"}, ["0 <= d", "d < D", "meets(y, a, b, d)"],
       "prevmeet(y, a, b, D) >= d", induct="D", base="d + 1")
-lemma("trin_up", {"c": "int", "n": "int"}, ["0 <= c"], "forall(b, c, n, trin(c) <= trin(b))", induct="n", base="c")
-lemma("trin_dn", {"c": "int"}, [], "forall(b, 0, c, trin(b + 1) <= trin(c))", induct="c", base="0")
+# rows of the triangular table do not interleave: row b occupies trin(b) .. trin(b) + b - 1, and the next row starts there
+lemma("trin_up", {"c": "int", "n": "int"}, ["0 <= c"], "forall(b, c + 1, n, trin(c) + c <= trin(b))", induct="n", base="c + 1",
+      uses=["trin_nonneg(n - 1)", "trin_nonneg(n - 2)"])      # (ground mentions: trin(n - 1) gets unfolded)
+lemma("trin_dn", {"c": "int"}, [], "forall(b, 0, c, trin(b) + b <= trin(c))", induct="c", base="0",
+      uses=["trin_nonneg(c)", "trin_nonneg(c - 1)"])
 lemma("trin_inj_all", {"a0": "int", "b0": "int", "n": "int"}, ["0 <= a0", "a0 < b0", "b0 < n"],
       "forall(b, 1, n, forall(a, 0, b, implies(not (a == a0 and b == b0), trin(b) + a != trin(b0) + a0)))",
-      uses=["trin_up(b0 + 1, n)", "trin_dn(b0)"],
+      uses=["trin_up(b0, n)", "trin_dn(b0)"],
       note="the slot of a pair in the triangular table is not the slot of any other pair")
 
 spec("sepd(y, a, b, d, smin, smax)", "implies(meets(y, a, b, d) and prevmeet(y, a, b, d) >= 0, "
@@ -561,9 +564,10 @@ _c.loops["0"].inv.append(tag("C07", "zero-implies-separations-in-range",
 _c.loops["0.0"].inv.append(tag("C07", "zero-implies-separation-table",
     "implies(errors == 0, forall(b, 1, n, forall(a, 0, b, temp_1[trin(b) + a] == "
     "(prevmeet(y, a, b, D) if a < team_1 else (prevmeet(y, a, b, day) if a == team_1 else -1)))))"))
-_c.loops["0.0"].inv.append(tag("C07", "zero-implies-separations-in-range",
-    "implies(errors == 0, forall(b, team_1 + 1, n, forall(d, 0, day, sepd(y, team_1, b, d, separation_min, separation_max))) and "
-    "forall(a, 0, team_1, forall(b, a + 1, n, forall(d, 0, D, sepd(y, a, b, d, separation_min, separation_max)))))"))
+_c.loops["0.0"].inv.append(tag("C07", "zero-implies-separations-in-range-this-team",
+    "implies(errors == 0, forall(b, team_1 + 1, n, forall(d, 0, day, sepd(y, team_1, b, d, separation_min, separation_max))))"))
+_c.loops["0.0"].inv.append(tag("C07", "zero-implies-separations-in-range-earlier-teams",
+    "implies(errors == 0, forall(a, 0, team_1, forall(b, a + 1, n, forall(d, 0, D, sepd(y, a, b, d, separation_min, separation_max)))))"))
 _c.lemmas_at["after if #16"] = ["trin_closed(team_1)", "trin_closed(team_2)"]
 _c.asserts["after assign idx #0"] = [tag("C07", "slot-of-the-pair",
     "idx == (trin(team_1) + team_2 if team_1 > team_2 else trin(team_2) + team_1)")]
@@ -572,5 +576,75 @@ _c.lemmas_at["after assign idx #0"] = ["trin_mono((team_1 if team_1 > team_2 els
 _c.lemmas_at["after assign last_time #0"] = [
     "trin_inj_all(team_2 if team_1 > team_2 else team_1, team_1 if team_1 > team_2 else team_2, n)",
     "pm_range(y, team_1, team_2, day)", "pm_ge(y, team_2, team_1, day, D)"]
+_c.asserts["after assign last_time #0"] = [
+    tag("C07", "last-time-is-previous-meeting", "implies(errors == 0 and team_1 < team_2, last_time == prevmeet(y, team_1, team_2, day))"),
+    tag("C07", "second-scan-sees-the-final-day", "implies(errors == 0 and team_2 < team_1, last_time == prevmeet(y, team_2, team_1, D)"
+        " and last_time >= day)"),
+    tag("C07", "opponent-of-the-day", "meets(y, team_1, team_2, day) and forall(b, 0, n, implies(b != team_2, not meets(y, team_1, b, day)))"),
+]
 _c.ensures.append(tag("C07", "zero-implies-repeated-pairings-respect-the-separation-limits",
     "implies(result == 0, forall(a, 0, n, forall(b, a + 1, n, forall(d, 0, D, sepd(y, a, b, d, separation_min, separation_max)))))"))
+
+
+# ====================================================================== C07, converse direction: a feasible schedule has value 0
+# second contract on the same real function: under the hypothesis that the plan satisfies every rule of the statement
+# (the four clauses that `result == 0` was shown to imply above), every statement that adds to `errors` is unreachable or
+# adds 0, so the counter stays 0.  Together: count_errors(y) == 0 if and only if y is a feasible schedule.
+import copy as _copy  # noqa: E402
+
+_FEASIBLE = [
+    "forall(t, 0, n, forall(d, 0, D, cell_ok(y, d, t, n)))",
+    # g is written with the very terms the code divides (days = y.shape[0], teams = y.shape[1]): same operands, same quotient
+    "g == shape(y, 0) // (shape(y, 1) - 1) and forall(a, 0, n, forall(b, 0, a, pair_ok(y, a, b, D, g)))",
+    "forall(t, 0, n, team_streaks_ok(y, t, D, home_streak_min, home_streak_max, away_streak_min, away_streak_max))",
+    "forall(a, 0, n, forall(b, a + 1, n, forall(d, 0, D, sepd(y, a, b, d, separation_min, separation_max))))",
+]
+_k = _copy.deepcopy(CONTRACTS[ER + ":count_errors"])
+_k.fn = ER + ":count_errors#complete"
+_k.ghosts = dict(_k.ghosts, g=INT)
+_k.requires = _k.requires + [tag("C07", f"feasible-{i}", e) for i, e in enumerate(_FEASIBLE)]
+_k.gen = None
+_k.call = None
+_k.must_fail = []
+
+
+def _keep(cl):      # drop the `errors == 0 implies ...` clauses and the monotonicity clauses of the first contract
+    return "implies(errors == 0" not in cl.expr and "implies(result == 0" not in cl.expr and cl.label != "nonneg"
+
+
+for _lk, _lp in _k.loops.items():
+    _lp.inv = [c for c in _lp.inv if _keep(c)] + [tag("C07", "no-error-so-far", "errors == 0")]
+_k.loops["0"].inv.append(tag("C07", "separation-table",
+    "forall(b, 1, n, forall(a, 0, b, temp_1[trin(b) + a] == (prevmeet(y, a, b, D) if a < team_1 else -1)))"))
+_k.loops["0.0"].inv.append(tag("C07", "separation-table",
+    "forall(b, 1, n, forall(a, 0, b, temp_1[trin(b) + a] == "
+    "(prevmeet(y, a, b, D) if a < team_1 else (prevmeet(y, a, b, day) if a == team_1 else -1))))"))
+for _lk in ("1", "1.0"):
+    _k.loops[_lk].inv.append(tag("C07", "games-per-pairing", "games_per_combo == g and teams == n and days == D"
+                                 + (" and 0 <= i and i < n" if _lk == "1.0" else "")))
+    _k.loops[_lk].inv.append(tag("C07", "pair-table", "forall(a, 0, n, forall(b, 0, n, temp_2[a, b] == hc(y, a, b, D)))"))
+_k.ensures = [tag("C07", "feasible-schedule-has-value-zero", "result == 0")]
+CONTRACTS[_k.fn] = _k
+
+
+def _gen_feasible(rng):
+    """feasible schedules (witnesses that the hypothesis of the converse contract is satisfiable): the two 4-team double
+    round robins of the docstring of count_errors, team labels permuted, under limits they satisfy"""
+    base = rng.choice([[[2, -1, 4, -3], [4, 3, -2, -1], [-2, 1, -4, 3], [3, 4, -1, -2], [-4, -3, 2, 1], [-3, -4, 1, 2]],
+                       [[2, -1, 4, -3], [4, 3, -2, -1], [3, 4, -1, -2], [-2, 1, -4, 3], [-4, -3, 2, 1], [-3, -4, 1, 2]]])
+    perm = list(range(4))
+    rng.shuffle(perm)            # relabel the teams: column perm[t] holds the games of team t under its new name
+    y = np.zeros((6, 4), np.int8)
+    for d in range(6):
+        for t in range(4):
+            v = base[d][t]
+            opp = perm[abs(v) - 1] + 1
+            y[d, perm[t]] = opp if v > 0 else -opp
+    dt = rng.choice([np.int8, np.int16, np.int64])
+    return {"y": y, "home_streak_min": 1, "home_streak_max": rng.choice([3, 4]), "away_streak_min": 1,
+            "away_streak_max": rng.choice([3, 5]), "separation_min": rng.choice([0, 1]), "separation_max": rng.choice([2, 6]),
+            "temp_1": np.full(6, 77, dt), "temp_2": np.full((4, 4), 77, dt), "n": 4, "D": 6, "g": 2}
+
+
+CONTRACTS[ER + ":count_errors#complete"].gen = _gen_feasible
+CONTRACTS[ER + ":count_errors#complete"].call = _call_count_errors
